@@ -422,3 +422,81 @@ package storage
 //@     after call (*storage.OrderedCombinedIterator).clearPendingThatAreNil : n = len(c.pending)
 //@     after call storage.TupleIterator.Head | storage.Iterator.Head returning h, e : alive = upd(alive, pendingIdx, e == nil) ; hk = upd(hk, pendingIdx, ufString("field:mapper", c.mapper, h)) ; wb = wb && (e != nil || h != nil)
 //@     after call storage.TupleIterator.Next | storage.Iterator.Next returning x, e : alive = upd(alive, pendingIdx, e == nil && alive[pendingIdx])
+
+// ------------------------------------------------------------------ C20 / C23: Stop reaches the wrapped iterator
+// the adapters are built over exactly the iterator given; Stop hands a closure to the adapter's own sync.Once and that
+// closure stops exactly the wrapped iterator (so stopping the outermost adapter of a chain releases the datastore
+// iterator at its bottom); the ordered merge and the concatenation stop every pending source
+//@ func NewTupleKeyIteratorFromTupleIterator(iter) (r)
+//@   property C20 C23
+//@   option nosafety
+//@   ensures @wraps typeIs(r, "*storage.tupleKeyIterator") && as(r, "*storage.tupleKeyIterator") != nil && as(r, "*storage.tupleKeyIterator").iter == iter && as(r, "*storage.tupleKeyIterator").once != nil
+
+//@ func NewFilteredTupleKeyIterator(iter, filter) (r)
+//@   property C20 C23
+//@   option nosafety
+//@   ensures @wraps typeIs(r, "*storage.filteredTupleKeyIterator") && as(r, "*storage.filteredTupleKeyIterator") != nil && as(r, "*storage.filteredTupleKeyIterator").iter == iter && as(r, "*storage.filteredTupleKeyIterator").filter == filter && as(r, "*storage.filteredTupleKeyIterator").once != nil
+
+//@ func NewConditionsFilteredTupleKeyIterator(iter, filter) (r)
+//@   property C20 C23
+//@   option nosafety
+//@   ensures @wraps typeIs(r, "*storage.ConditionsFilteredTupleKeyIterator") && as(r, "*storage.ConditionsFilteredTupleKeyIterator") != nil && as(r, "*storage.ConditionsFilteredTupleKeyIterator").iter == iter && as(r, "*storage.ConditionsFilteredTupleKeyIterator").filter == filter && as(r, "*storage.ConditionsFilteredTupleKeyIterator").once != nil
+
+//@ func (*tupleKeyIterator).Stop(t)
+//@   property C20 C23
+//@   option nosafety
+//@   ensures @once handed
+//@   monitor once
+//@     ghost handed = false
+//@     after call (*sync.Once).Do args o, f : handed = pre(o == t.once) && closureOf(f, "Stop$1") && closureBinds(f, 0, addrOf(t))
+
+//@ func (*tupleKeyIterator).Stop$1()
+//@   property C20 C23
+//@   option nosafety
+//@   ensures @stopsInner stopped
+//@   monitor inner
+//@     ghost stopped = false
+//@     before call storage.Iterator.Stop | storage.TupleIterator.Stop args it : assert it == deref(t).iter
+//@     after call storage.Iterator.Stop | storage.TupleIterator.Stop : stopped = true
+
+//@ func (*filteredTupleKeyIterator).Stop(f)
+//@   property C20 C23
+//@   option nosafety
+//@   ensures @once handed
+//@   monitor once
+//@     ghost handed = false
+//@     after call (*sync.Once).Do args o, fn : handed = pre(o == f.once) && closureOf(fn, "Stop$1") && closureBinds(fn, 0, addrOf(f))
+
+//@ func (*filteredTupleKeyIterator).Stop$1()
+//@   property C20 C23
+//@   option nosafety
+//@   ensures @stopsInner stopped
+//@   monitor inner
+//@     ghost stopped = false
+//@     before call storage.Iterator.Stop | storage.TupleKeyIterator.Stop args it : assert it == deref(f).iter
+//@     after call storage.Iterator.Stop | storage.TupleKeyIterator.Stop : stopped = true
+
+//@ func (*ConditionsFilteredTupleKeyIterator).Stop(f)
+//@   property C20 C23
+//@   option nosafety
+//@   ensures @once handed
+//@   monitor once
+//@     ghost handed = false
+//@     after call (*sync.Once).Do args o, fn : handed = pre(o == f.once) && closureOf(fn, "Stop$1") && closureBinds(fn, 0, addrOf(f))
+
+//@ func (*ConditionsFilteredTupleKeyIterator).Stop$1()
+//@   property C20 C23
+//@   option nosafety
+//@   ensures @stopsInner stopped
+//@   monitor inner
+//@     ghost stopped = false
+//@     before call storage.Iterator.Stop | storage.TupleKeyIterator.Stop args it : assert it == deref(f).iter
+//@     after call storage.Iterator.Stop | storage.TupleKeyIterator.Stop : stopped = true
+
+// ------------------------------------------------------------------ C19: no-panic sweep (thin, safety-only contracts)
+// every index and slice expression of these functions is in range for ALL inputs, with no precondition (generated by
+// bin/sweepgen, kept because every obligation discharges; callees without contract are treated as arbitrary)
+//@ func InvariantCacheKey(a0, a1, a2, a3) (r0)
+//@   property C19
+//@   option nosafety
+//@   option safety slice,index
